@@ -740,6 +740,12 @@ pub fn c07(rec: &mut Rec, lm: &Landmarks, rng: &mut Rng, thorough: bool) {
         m.eload_dur(TimeScale::ET, ns_dur(v));
         m.to_scale(TimeScale::TDB);
         m.to_scale(TimeScale::ET);
+        // the accessors of one dynamical scale on an epoch held in the other
+        m.to_dur(TimeScale::TDB, 1);
+        m.dyn_view(TimeScale::TDB);
+        m.eload_dur(TimeScale::TDB, ns_dur(v));
+        m.to_dur(TimeScale::ET, 1);
+        m.dyn_view(TimeScale::ET);
     }
     // random
     let n = if thorough { 40_000 } else { 1_500 };
